@@ -40,6 +40,13 @@ def cases(draw, tier):
     if alg in ("Eigh", "Lanczos") and kind not in ("herm_def", "herm_indef", "diag", "eye"):
         kind = draw(st.sampled_from(["herm_def", "herm_indef"]))
     k = draw(st.integers(1, n))
+    if draw(st.integers(1, 10)) == 1:
+        # round 6: more rows than any fixed-size Krylov working space (n 21..40), a few pairs, the cap at or above n
+        n = draw(st.integers(21, 40))
+        k = draw(st.integers(1, 4))
+        alg = draw(st.sampled_from(["Lanczos", "Arnoldi", "Arnoldi", "Auto", "Eig"]))
+        if alg == "Lanczos" and kind not in ("herm_def", "herm_indef", "diag", "eye"):
+            kind = draw(st.sampled_from(["herm_def", "herm_indef"]))
     which = draw(st.sampled_from(["LM", "SM", "omitted"]))
     fn = draw(st.sampled_from(["eig", "eig", "eig", "eigmax", "eigmin"]))
     force_dominant = False
@@ -58,7 +65,7 @@ def cases(draw, tier):
             # the algorithm object is first used on a smaller operator; an explicit start vector of another dtype / precision
             "warm_small": draw(st.integers(1, 4)) == 1, "start": draw(st.sampled_from([None, None, None, "same", "c64", "f32"])),
             # the whole operator rescaled by 10^sscale (eigenvectors unchanged, eigenvalues scale with it)
-            "sscale": draw(st.sampled_from([0, -3, -6, -8, 3] if force_dominant else [0, 0, 0, -3, -2, 3])), "dominant": draw(st.booleans()) or force_dominant}
+            "sscale": draw(st.sampled_from([0, -3, -6, -8, 3] if force_dominant else [0, 0, 0, -3, -2, 3, -9, -8, 8])), "dominant": draw(st.booleans()) or force_dominant}
 
 
 def strategy(tier):
@@ -192,7 +199,7 @@ def check(case, out):
     alg = make_alg(case, n)
     which = "LM" if case["which"] == "omitted" else case["which"]
     fn = case["fn"]
-    herm = np.allclose(M, M.conj().T)
+    herm = bool(np.abs(M - M.conj().T).max(initial=0) <= 1e-12 * max(np.abs(M).max(initial=0), 1e-300))  # (relative: operators of scale 1e-9 are generated)
     out.label("kind:" + case["kind"], "alg:" + case["alg"], "which:" + case["which"], "fn:" + fn, "k:" + ("1" if k == 1 else "n" if k == n else "mid"),
               "cap:" + case["cap"])
     indefinite = herm and np.linalg.eigvalsh(M).min() < 0
